@@ -20,6 +20,7 @@ import (
 	"github.com/paulsonkoly/chess-3/heur"
 	"github.com/paulsonkoly/chess-3/move"
 	"github.com/paulsonkoly/chess-3/picker"
+	"github.com/paulsonkoly/chess-3/search"
 	"github.com/paulsonkoly/chess-3/stack"
 	"github.com/paulsonkoly/chess-3/uci"
 
@@ -61,6 +62,13 @@ type Ev struct {
 	N     int      `json:"n"`
 	V     int      `json:"v"`
 	Ok    bool     `json:"ok"`
+	// pv buffer / score text
+	Ply    int       `json:"ply"`
+	Active *[]int    `json:"active,omitempty"`
+	Ix     *[]int    `json:"ix,omitempty"`
+	Len    int       `json:"len"`
+	From   int       `json:"from"`
+	Texts  *[]string `json:"texts,omitempty"`
 }
 
 type rec struct {
@@ -639,6 +647,78 @@ func (r *rec) containers() {
 	}
 }
 
+// pvbuf: operation sequences on the real principal-variation buffer, in the way the search uses it
+// (setNull at node entry, insert below the last ply, lines never longer than their segment)
+func (r *rec) pvbuf() {
+	ix := make([]int, 64)
+	for p := range ix {
+		ix[p] = search.VerifBufIx(p)
+	}
+	r.emit(&Ev{Ev: "bufix", Ix: &ix, Len: search.VerifPVLen()})
+	for !r.full() {
+		r.t++
+		pv := search.NewVerifPV()
+		r.emit(&Ev{Ev: "pvnew"})
+		lens := make([]int, 65)
+		act := func() *[]int {
+			res := []int{}
+			for _, m := range pv.Active() {
+				res = append(res, int(m))
+			}
+			return &res
+		}
+		deep := r.rng.Intn(4) == 0
+		for i, n := 0, 40+r.rng.Intn(300); i < n && !r.full(); i++ {
+			ply := r.rng.Intn(8)
+			if deep {
+				ply = r.rng.Intn(63)
+			}
+			if r.rng.Intn(3) == 0 {
+				if deep && r.rng.Intn(2) == 0 {
+					ply = 63
+				}
+				pv.SetNull(ply)
+				lens[ply] = 0
+				r.emit(&Ev{Ev: "pvnull", Ply: ply, Active: act()})
+				continue
+			}
+			if ply > 62 {
+				ply = 62
+			}
+			// walk a line up from a deep ply now and then (long variations)
+			if deep && r.rng.Intn(5) == 0 {
+				start := 20 + r.rng.Intn(43)
+				pv.SetNull(start)
+				lens[start] = 0
+				r.emit(&Ev{Ev: "pvnull", Ply: start, Active: act()})
+				for q := start - 1; q >= 0 && !r.full(); q-- {
+					m := 1 + r.rng.Intn(32767)
+					pv.Insert(q, move.Move(m))
+					lens[q] = lens[q+1] + 1
+					r.emit(&Ev{Ev: "pvinsert", Ply: q, M: m, Active: act()})
+				}
+				continue
+			}
+			m := 1 + r.rng.Intn(32767)
+			pv.Insert(ply, move.Move(m))
+			lens[ply] = lens[ply+1] + 1
+			r.emit(&Ev{Ev: "pvinsert", Ply: ply, M: m, Active: act()})
+		}
+	}
+}
+
+// scores: the info-line text of every 16-bit score
+func (r *rec) scores() {
+	for from := -32768; from < 32768; from += 4096 {
+		texts := make([]string, 4096)
+		for k := range texts {
+			texts[k] = Score(from + k).String()
+		}
+		r.t++
+		r.emit(&Ev{Ev: "scores", From: from, Texts: &texts})
+	}
+}
+
 func boolInt(b bool) int {
 	if b {
 		return 1
@@ -680,6 +760,11 @@ func main() {
 		r.eval(corpus)
 	case "containers":
 		r.containers()
+	case "pvbuf":
+		r.pvbuf()
+	case "scores":
+		r.max = 1 << 30
+		r.scores()
 	}
 	fmt.Fprintln(os.Stderr, "events", r.n)
 }
